@@ -18,7 +18,7 @@ From Coq Require Import List NArith Bool Lia.
 From Pika Require Import Base.Conc Gen.GenStopBits Model.StopWord Model.StopState
   Model.StopHandles Proofs.StopFlagsProofs Proofs.StopStateProofs Proofs.StopHandlesProofs
   Proofs.StopCallbacksAbs Proofs.StopCallbacksProofs Proofs.StopProgressStep Proofs.StopProgressProofs
-  Proofs.StopCtorProofs Proofs.StopSourcesProofs Proofs.StopTaskIds.
+  Proofs.StopCtorProofs Proofs.StopSourcesProofs Proofs.StopTaskIds Proofs.StopTokensProofs Proofs.StopRefusedProofs.
 Import ListNotations.
 
 (* the regenerated layout: four disjoint fields filling the 64-bit word *)
@@ -373,6 +373,130 @@ Proof.
   split; [vm_compute; repeat split; reflexivity|]. split; [split; [reflexivity|vm_compute; reflexivity]|].
   split; vm_compute; reflexivity.
 Qed.
+
+(* ------------------------------------------------------------------------------------------
+   Part 1d: the reference-count side condition discharged from the initial condition, and the
+   refused registration as an absorbing state (Proofs/StopTokensProofs.v, StopRefusedProofs.v).
+   [good_toks nthr tbase w0 progs srcs]: threads >= nthr have empty programs (finitely many active
+   threads), the token field of the initial word is tbase + (one reference per stop_source held by
+   a thread), and at least one reference is owned outside the modelled threads (tbase >= 1: the
+   state is not deleted under the threads' feet — deletion is not modelled).
+   [tkheld l]: references a thread holds as the word sees them = token copies + stop_sources +
+   (1 between add_ref and add_source_count of stop_source's copy constructor) + (1 per stop_callback
+   constructor of this thread that has taken its reference and neither registered nor released
+   yet, nested constructors running on the same thread included).
+   [owns r]: the stop_callback object is registered and its destructor has not yet released. *)
+
+(* the token field of the word is an exact count of the references: outside + held by the threads
+   + one per registered, not yet destroyed stop_callback object (L lists exactly those) *)
+Theorem C14_tokens_exact : forall P sched w0 progs srcs nthr sbase tbase, ids_faithful P ->
+  good_init w0 -> good_srcs nthr sbase w0 srcs -> good_toks nthr tbase w0 progs srcs ->
+  let c := st_run P sched w0 progs srcs in
+  exists L, NoDup L /\ (forall k, In k L <-> owns (cb (fst c) k) = true) /\
+    w_tokens (word (fst c)) =
+      (tbase + N.of_nat (sumf (fun t => tkheld (snd c t)) nthr + length L))%N /\
+    forall t, nthr <= t -> snd c t = idle_local.
+Proof. exact tokens_exact. Qed.
+Print Assumptions C14_tokens_exact.
+
+(* no reachable configuration is wedged: no reference-count step finds its guard false, as long as
+   the number of handles that can have been created (one per step at most) stays below 2^31 - 1
+   per field *)
+Theorem C14_never_wedged : forall P sched w0 progs srcs nthr sbase tbase, ids_faithful P ->
+  good_init w0 -> good_srcs nthr sbase w0 srcs -> good_toks nthr tbase w0 progs srcs ->
+  (w_tokens w0 + N.of_nat (length sched) < tok_max)%N ->
+  (w_sources w0 + N.of_nat (length sched) < src_max)%N ->
+  let c := st_run P sched w0 progs srcs in
+  forall t, wedged (fst c) (snd c t) = false.
+Proof. exact never_wedged. Qed.
+Print Assumptions C14_never_wedged.
+
+(* C14_stop_calls_return without its side condition: request_stop, the stop_callback constructor
+   and ~stop_callback always return — in every stuck configuration reached from a well-formed
+   initial configuration every thread has finished its program *)
+Theorem C14_stop_calls_return_from_init : forall P sched w0 progs srcs nthr sbase tbase,
+  ids_faithful P -> good_init w0 -> good_srcs nthr sbase w0 srcs ->
+  good_toks nthr tbase w0 progs srcs ->
+  (w_tokens w0 + N.of_nat (length sched) < tok_max)%N ->
+  (w_sources w0 + N.of_nat (length sched) < src_max)%N ->
+  let c := st_run P sched w0 progs srcs in
+  (forall t, wedged (fst c) (snd c t) = false) /\
+  (stuck P c -> forall t, thread_done (snd c t) = true).
+Proof. exact stop_calls_return_from_init. Qed.
+Print Assumptions C14_stop_calls_return_from_init.
+
+Theorem C14_no_blocked_call_from_init : forall P sched w0 progs srcs nthr sbase tbase,
+  ids_faithful P -> good_init w0 -> good_srcs nthr sbase w0 srcs ->
+  good_toks nthr tbase w0 progs srcs ->
+  (w_tokens w0 + N.of_nat (length sched) < tok_max)%N ->
+  (w_sources w0 + N.of_nat (length sched) < src_max)%N ->
+  let c := st_run P sched w0 progs srcs in
+  forall t, (spinpc (pc (snd c t)) = true \/ exists k, pc (snd c t) = RWait k) -> ~ stuck P c.
+Proof. exact no_blocked_call_from_init. Qed.
+Print Assumptions C14_no_blocked_call_from_init.
+
+(* non-vacuity: the configuration of C14_stop_calls_return_example (the lock-step harness's initial
+   word: two references outside, thread 1 owns the only source) satisfies every hypothesis *)
+Example C14_from_init_example :
+  let P := {| cb_body := fun _ => [OpTokCopy]; pika_id := fun _ => None; os_id := fun t => t |} in
+  let progs := fun t => match t with 0%nat => [OpAdd 0; OpRem 0] | 1%nat => [OpReq] | _ => [] end in
+  let srcs := fun t => match t with 1%nat => 1%nat | _ => 0%nat end in
+  let w0 := (3 + source_ref_increment)%N in
+  let s := map (fun t => (t, false)) [0;0;0;0;0; 1;1;1;1;1; 0;0;0;0;0;0; 1;1;1;1;1;1; 0;0]%nat in
+  ids_faithful P /\ good_init w0 /\ good_srcs 2 0 w0 srcs /\ good_toks 2 2 w0 progs srcs /\
+  (w_tokens w0 + N.of_nat (length s) < tok_max)%N /\ (w_sources w0 + N.of_nat (length s) < src_max)%N /\
+  stuck P (st_run P s w0 progs srcs) /\
+  w_tokens (word (fst (st_run P s w0 progs srcs))) = 4%N.
+Proof.
+  Transparent W w_tokens w_sources. cbv zeta. split; [intros t1 t2; cbn; tauto|].
+  split; [vm_compute; repeat split; reflexivity|].
+  split; [split; [intros [|[|t]] H; try lia; reflexivity|vm_compute; reflexivity]|].
+  split; [split; [intros [|[|t]] H; try lia; reflexivity|split; [vm_compute; discriminate|vm_compute; reflexivity]]|].
+  split; [vm_compute; reflexivity|]. split; [vm_compute; reflexivity|].
+  split; [|vm_compute; reflexivity].
+  intros t o. destruct t as [|[|t]]; destruct o; vm_compute; reflexivity.
+Qed.
+
+(* the refused registration, state form.  If at the end of s1 thread t executes (oracle o) the read
+   of lock_if_not_stopped that refuses callback k (C14_refused_only_if_no_source says when that
+   happens), then in EVERY later configuration: k was never invoked, is not registered, is not and
+   never was linked into callbacks_ / dequeued, and either t still stands at the release of the
+   constructor's reference or the constructor has returned: cb_ctor = 2, cb_reg = false, cb_runs = 0 *)
+Theorem C14_refused_state : forall P s1 s2 w0 progs srcs t o k, ids_faithful P -> good_init w0 ->
+  let c1 := st_run P s1 w0 progs srcs in
+  (pc (norm (snd c1 t)) = ALoad k \/ (exists old, pc (norm (snd c1 t)) = ACas k old) \/
+   pc (norm (snd c1 t)) = ASpin k) ->
+  pc (snd (st_tstep P o t (fst c1) (snd c1 t))) = ARelease k ->
+  let c2 := st_run P (s1 ++ (t, o) :: s2) w0 progs srcs in
+  cb_runs (cb (fst c2) k) = 0 /\ cb_reg (cb (fst c2) k) = false /\
+  cb_queued (cb (fst c2) k) = false /\ ~ In k (cbs (fst c2)) /\ cb_deq (cb (fst c2) k) = false /\
+  ((cb_ctor (cb (fst c2) k) = 1 /\ pc (snd c2 t) = ARelease k) \/ cb_ctor (cb (fst c2) k) = 2).
+Proof. exact refused_state. Qed.
+Print Assumptions C14_refused_state.
+
+(* ... and that end state is absorbing: once cb_ctor = 2, cb_reg = false, cb_runs = 0 holds it
+   holds in every extension of the schedule (the callback is never invoked later, never linked) *)
+Theorem C14_refused_absorbing : forall P s1 s2 w0 progs srcs k, ids_faithful P -> good_init w0 ->
+  let g1 := fst (st_run P s1 w0 progs srcs) in
+  let g2 := fst (st_run P (s1 ++ s2) w0 progs srcs) in
+  cb_ctor (cb g1 k) = 2 -> cb_reg (cb g1 k) = false -> cb_runs (cb g1 k) = 0 ->
+  cb_ctor (cb g2 k) = 2 /\ cb_reg (cb g2 k) = false /\ cb_runs (cb g2 k) = 0 /\
+  cb_queued (cb g2 k) = false /\ ~ In k (cbs g2) /\ cb_deq (cb g2 k) = false.
+Proof. exact refused_absorbing. Qed.
+Print Assumptions C14_refused_absorbing.
+
+(* non-vacuity: the refusal of C14_refused_example, one more step of thread 0 (the release), then a
+   request_stop of thread 1 that comes too late for callback 0 (thread 1 holds no source: no-op) *)
+Example C14_refused_state_example :
+  let P := {| cb_body := fun _ => []; pika_id := fun _ => None; os_id := fun t => t |} in
+  let progs := fun t => match t with 0%nat => [OpAdd 0] | 1%nat => [OpTokCopy] | _ => [] end in
+  let s1 := [(0%nat, false); (0%nat, false)] in
+  let c1 := st_run P s1 2%N progs (fun _ => 0%nat) in
+  let c2 := st_run P (s1 ++ (0%nat, false) :: [(0%nat, false); (1%nat, false); (1%nat, false)]) 2%N progs (fun _ => 0%nat) in
+  pc (norm (snd c1 0%nat)) = ALoad 0 /\ pc (snd (st_tstep P false 0 (fst c1) (snd c1 0%nat))) = ARelease 0 /\
+  cb_ctor (cb (fst c2) 0%nat) = 2%nat /\ cb_reg (cb (fst c2) 0%nat) = false /\
+  cb_runs (cb (fst c2) 0%nat) = 0%nat /\ thread_done (snd c2 0%nat) = true /\ w_tokens (word (fst c2)) = 3%N.
+Proof. Transparent W w_tokens. vm_compute. repeat split; reflexivity. Qed.
 
 (* ------------------------------------------------------------------------------------------
    Part 2: handle histories (stop_source / stop_token construct, copy, move, copy-assign,
